@@ -55,59 +55,55 @@ Proof. vm_compute. reflexivity. Qed.
 Print Assumptions C14_translation_agrees.
 
 (* ---------------------------------------------------------------------------------------------- *)
-(* 3. DESIGN.md's obligation `forallb checks_first Gen.setter_table = true` is FALSE of the unchanged
-      tree.  The setters that fail are exactly these (each is a recorded finding with a proposed
-      repair, see notes/C14.md; none is white-listed: the lists are compared with what the analysis
-      computes on the table generated from the working tree, and every failing setter is refuted by a
-      counter-execution of the model): *)
-Definition excluded_setters : list string :=
-  ["Cell.atom_density"; "Cell.mass_density";       (* F-C14-density-overflow *)
-   "Importance.all";                               (* F-C14-importance-all-keyerror *)
-   "MCNP_Problem.cells";                           (* F-C14-cells-setter-clears *)
-   "UnitHalfSpace.divider";                        (* F-C14-divider-assigned-before-append *)
-   "Mode.set"; "MCNP_Problem.set_mode";            (* F-C14-mode-set-clears *)
-   "Cells.set_equal_importance"].                  (* F-C14-importance-all-keyerror *)
-Definition excluded_generated : list string :=
-  ["Cell.geometry"].                               (* F-C14-geometry-partial-link *)
-
-(* the lists name every setter that fails the analysis on the working tree (a name whose setter has been
-   repaired since may linger: the check reports it; a setter that fails and is not named breaks this) *)
-Theorem C14_excluded_cover :
-  covers (excluded_setters ++ excluded_generated) (failing E (setter_table ++ generated_table)) = true.
+(* 3. DESIGN.md's obligation: every hand-written public setter / deleter / mutator and every
+      instantiated generated setter of the working tree is checks-first.
+      (History: on the tree this check was first run on, nine entries failed — Cell.atom_density,
+      Cell.mass_density, Importance.all, Cells.set_equal_importance, MCNP_Problem.cells,
+      UnitHalfSpace.divider, Mode.set, MCNP_Problem.set_mode, Cell.geometry — each with a
+      counter-execution in the model and a reproducer on the real code; they were repaired in /repo
+      by the commits listed in findings/C14.fixed.json, and their reproducers are corpus/C14.) *)
+Theorem C14_all_setters :
+  forallb (fun p => checks_first E (snd p)) (setter_table ++ generated_table) = true.
 Proof. vm_compute. reflexivity. Qed.
-Print Assumptions C14_excluded_cover.
+Print Assumptions C14_all_setters.
 
-(* _refuted: every setter that fails the analysis has a counter-execution in the model — it raises
-   after it has written (the adversary is found by computation in a finite family,
-   Proofs/SetterProofs.family): the analysis is not "too coarse" on any entry of the table *)
-Theorem C14_all_setters_refuted :
+(* hence: whichever of them raises, for every state, argument and choice of the adversary, the state
+   is unchanged *)
+Theorem C14_all_setters_atomic :
+  forall name ir s a,
+    In (name, ir) (setter_table ++ generated_table) ->
+    is_err (snd (exec E ir s a)) = true -> fst (exec E ir s a) = s.
+Proof.
+  intros name ir s a Hin Herr. apply checks_first_sound; [|exact Herr].
+  pose proof C14_all_setters as H. rewrite forallb_forall in H. apply (H (name, ir) Hin).
+Qed.
+Print Assumptions C14_all_setters_atomic.
+
+(* the analysis is not "too coarse" on any entry of the table: an entry it rejects has a
+   counter-execution in the model — it raises after it has written (the adversary is found by
+   computation in a finite family, Proofs/SetterProofs.family).  True of every tree on which the search
+   succeeds; on the current one no entry is rejected, and the statement names no witness. *)
+Theorem C14_rejected_are_refuted :
   forall name, In name (failing E (setter_table ++ generated_table)) ->
     exists ir a, In (name, ir) (setter_table ++ generated_table) /\
                  is_err (snd (exec E ir [] a)) = true /\ fst (exec E ir [] a) <> [].
 Proof.
   apply (refuted_of_decided E (setter_table ++ generated_table)); vm_compute; reflexivity.
 Qed.
-Print Assumptions C14_all_setters_refuted.
+Print Assumptions C14_rejected_are_refuted.
 
-(* _partial: every other hand-written setter / deleter / mutator and every other generated setter of
-   the working tree, when it raises, leaves the state unchanged — for every state, argument, and
-   choice of the adversary *)
-Theorem C14_all_setters_partial :
-  forall name ir s a,
-    In (name, ir) (setter_table ++ generated_table) ->
-    ~ In name (excluded_setters ++ excluded_generated) ->
-    is_err (snd (exec E ir s a)) = true -> fst (exec E ir s a) = s.
-Proof.
-  apply (table_atomic_cover E (setter_table ++ generated_table)). exact C14_excluded_cover.
-Qed.
-Print Assumptions C14_all_setters_partial.
-
-(* the side condition is satisfiable, and by most of the table *)
-Example C14_all_setters_partial_nonvacuous :
-  60 <= List.length (filter (fun p => negb (mem_s (fst p) (excluded_setters ++ excluded_generated)))
-                            (setter_table ++ generated_table)).
-Proof. vm_compute. repeat constructor. Qed.
-Print Assumptions C14_all_setters_partial_nonvacuous.
+(* the search itself is not vacuous: the setter of the tree before the repair 60809da (Mode.set: clear
+   the mode, then convert the designators one by one) is rejected by the analysis and refuted *)
+Example C14_refutation_nonvacuous :
+  let old_mode_set :=
+    [SCheckInst 0 ["list"; "set"; "str"] "TypeError";
+     SInline 1 "Mode._parse_and_override_particle_modes" ASame
+       [SMutate 2 "self._particles"; SIter 3;
+        SLoop 4 [SCheck 5 "TypeError"; SCall 6 "new:Particle" true false false;
+                 SCall 7 "self._particles.add" false true false]]] in
+  checks_first E old_mode_set = false /\ refutable E old_mode_set = true.
+Proof. vm_compute. split; reflexivity. Qed.
+Print Assumptions C14_refutation_nonvacuous.
 
 (* ---------------------------------------------------------------------------------------------- *)
 (* 4. the generated-property templates (utilities.make_prop_val_node / make_prop_pointer): every
